@@ -558,4 +558,55 @@ def convertReg (mc : Nat → Option MetaCheck) (σ : Store) (r : MReg) (s : Sche
 def mergeExamples (cmpBound : Nat) (have_ add : List Nat) : List Nat :=
   add.foldl (fun out x => if x < cmpBound && out.contains x then out else out ++ [x]) have_
 
+/-! ### type-local reference state of object / struct / union types (C08)
+
+  Besides `core.ZodTypeInternals` these types keep reference-typed fields of their own: `Shape` (the `shape` slot of
+  `Schema`), `PartialExceptions map[string]bool` (types/object.go, types/struct.go) and the option list of unions.
+  `newObjectInternals` copies the REFERENCES into every derived schema; `Partial(keys)` / `Required(keys)` make a
+  fresh key set (`make(map[string]bool)`, filled before the result exists); `Partial()` / `Required()` drop it.
+  `LSchema` adds the slot to `Schema`, `LOp` the behaviours on top of the `Op` the call performs on the common part. -/
+
+structure LSchema where
+  s : Schema
+  exc : Option Loc          -- PartialExceptions / option list: a `vals` cell (key ids)
+deriving DecidableEq, Repr
+
+structure LObs where
+  base : Obs
+  exc : Option (List Nat)
+deriving DecidableEq, Repr
+
+def obsL (h : Loc → Option Cell) (x : LSchema) : LObs := ⟨obs h x.s, readVals h x.exc⟩
+
+inductive LOp
+  | share (op : Op)                     -- any other chaining call: the reference is copied (`newObjectInternals`)
+  | keyed (op : Op) (keys : List Nat)   -- Partial(keys) / Required(keys): a fresh key set
+  | drop (op : Op)                      -- Partial() / Required(): `PartialExceptions = nil`
+  | inPlace (op : Op) (key : Nat)       -- NOT what the code does: delete `key` from the receiver's key set and share
+                                        -- it (a Required that edits `z.internals.PartialExceptions`) — the excluded shape
+deriving DecidableEq, Repr
+
+def LOp.base : LOp → Op
+  | .share op => op
+  | .keyed op _ => op
+  | .drop op => op
+  | .inPlace op _ => op
+
+def LOp.isInPlace : LOp → Bool
+  | .inPlace _ _ => true
+  | _ => false
+
+def applyLOp (cfg : Cfg) (σ : Store) (recv : LSchema) : LOp → Store × LSchema
+  | .share op => let r := applyOp cfg σ recv.s op; (r.1, ⟨r.2, recv.exc⟩)
+  | .keyed op ks =>
+    let r := applyOp cfg σ recv.s op
+    let a := alloc r.1 (.vals ks)
+    (a.1, ⟨r.2, some a.2⟩)
+  | .drop op => let r := applyOp cfg σ recv.s op; (r.1, ⟨r.2, none⟩)
+  | .inPlace op k =>
+    let r := applyOp cfg σ recv.s op
+    match recv.exc with
+    | some l => (write r.1 l (.vals (((readVals r.1.heap (some l)).getD []).filter (fun x => x != k))), ⟨r.2, some l⟩)
+    | none => (r.1, ⟨r.2, none⟩)
+
 end Gozod.Store
